@@ -45,6 +45,10 @@ VARIABLES tid, l,
           quiet,     \* the state is a snapshot the recorder flagged quiescent
           settled,   \* the state is a snapshot (the loop was drained after the last stimulus)
           spar,      \* [minspeed, ratio] sent by the server in this session, -1 = not sent
+          adopted,   \* peers that appeared in `children` on a connection that has not been closed since: the
+                     \* current children of the statement are the adopted peers whose link is open, whatever
+                     \* the client's list says later (a child leaves only by its connection closing)
+          xfiles,    \* names of the shared files whose path contains a server-excluded phrase (bound from the log)
           marks,     \* tolerated deviation actions taken (open findings)
           unexpl,    \* <<>> or <<what, l>>: first search frame / reply that belongs to no search request
           bad        \* <<>> or <<property, l>>: first property found false on this path.  Always <<>> on
@@ -52,7 +56,7 @@ VARIABLES tid, l,
                      \* CONSTRAINTs and uses it to name the violated property of every rejected trace
                      \* in one run (fingerprints only - the verdict comes from Trace.cfg)
 
-tvars == <<vars, tid, l, quiet, settled, spar, marks, unexpl, bad>>
+tvars == <<vars, tid, l, quiet, settled, spar, adopted, xfiles, marks, unexpl, bad>>
 
 T == Traces[tid]
 Rec == T[l]
@@ -73,7 +77,8 @@ TInit ==
   /\ pc = [p \in P |-> "idle"] /\ wait = [p \in P |-> {}]
   /\ addPend = [p \in P |-> None] /\ slow = [p \in P |-> FALSE]
   /\ spc = "idle" /\ rwait = {} /\ nev = 0
-  /\ slog = <<>> /\ fwd = [p \in P |-> <<>>] /\ replies = <<>>
+  /\ slog = <<>> /\ fwd = [p \in P |-> <<>>] /\ replies = <<>> /\ phr = FALSE
+  /\ adopted = {} /\ xfiles = {}
   /\ quiet = FALSE /\ settled = FALSE
   /\ spar = [minspeed |-> -1, ratio |-> -1]
   /\ marks = {}
@@ -86,8 +91,12 @@ Files == Traces[tid][1].files
 Friends == Range(Traces[tid][1].friends)
 LockedFor(f, u) == f.mode = "friends" /\ u \notin Friends
 \* every included word occurs in the path, no excluded word does (whole words, case-insensitive)
-MatchesOf(u, terms, excl) ==
-  LET hit == {i \in DOMAIN Files : terms \subseteq Range(Files[i].words) /\ excl \cap Range(Files[i].words) = {}} IN
+\* and - "search results containing at least one of the phrases should be filtered out" - the path does
+\* not contain a phrase the server excluded (xf: the files that do)
+MatchesOf(u, terms, excl, xf) ==
+  LET hit == {i \in DOMAIN Files : /\ terms \subseteq Range(Files[i].words)
+                                    /\ excl \cap Range(Files[i].words) = {}
+                                    /\ Files[i].name \notin xf} IN
     [visible |-> {Files[i].name : i \in {j \in hit : ~LockedFor(Files[j], u)}},
      locked |-> {Files[i].name : i \in {j \in hit : LockedFor(Files[j], u)}}]
 NonEmpty(m) == m.visible # {} \/ m.locked # {}
@@ -105,7 +114,7 @@ TChildAdmission == [][AdmissionStep]_tvars
 
 \* C14
 TExpectedReply(k) == slog[k].search /\ slog[k].u # Me /\ slog[k].sess
-                     /\ slog[k].terms # {} /\ NonEmpty(MatchesOf(slog[k].u, slog[k].terms, slog[k].excl))
+                     /\ slog[k].terms # {} /\ NonEmpty(MatchesOf(slog[k].u, slog[k].terms, slog[k].excl, slog[k].xf))
 TForwardAtMostOnce ==
   \A k \in DOMAIN slog : \A p \in P : Count(fwd[p], k) <= IF p \in ExpectedFan(k) THEN 1 ELSE 0
 \* a handler that is held up by the environment (wait_closed of a closing link, a server reader busy in
@@ -156,13 +165,15 @@ Judge ==
 IsEv(e) == l <= Len(T) /\ Rec.ev = e
 \* a non-snapshot record: consumed, the state is "in flight" until the next snapshot
 Step == l' = l + 1 /\ quiet' = FALSE /\ settled' = FALSE /\ UNCHANGED <<tid, marks, unexpl>> /\ Judge
-Unused == UNCHANGED <<pc, wait, addPend, spc, rwait, nev, params>>
+Unused == UNCHANGED <<pc, wait, addPend, spc, rwait, nev, params, xfiles>>
+Kept == UNCHANGED adopted
 
 NewLink(p, st) ==
   /\ conn' = [conn EXCEPT ![p] = st]
   /\ lvl' = [lvl EXCEPT ![p] = NoLvl]
   /\ root' = [root EXCEPT ![p] = None]
   /\ toldChild' = [toldChild EXCEPT ![p] = NoTold]
+  /\ adopted' = adopted \ {p}
 
 ----------------------------------------------------------------------------
 \* stimuli
@@ -172,12 +183,12 @@ TPotential ==
   /\ potential' = potential \cup Range(Rec.S)
   /\ conn' = [p \in P |-> IF p \in Range(Rec.S) /\ conn[p] = "none" THEN "pending" ELSE conn[p]]
   /\ UNCHANGED <<lvl, root, parent, children, accept, maxc, session, toldServer, toldChild, slow, srchvars, spar>>
-  /\ Unused /\ Step
+  /\ Unused /\ Kept /\ Step
 
 TAttempt ==
   /\ IsEv("attempt")
   /\ IF Rec.ok THEN NewLink(Rec.p, "openReq")
-               ELSE conn' = [conn EXCEPT ![Rec.p] = "none"] /\ UNCHANGED <<lvl, root, toldChild>>
+               ELSE conn' = [conn EXCEPT ![Rec.p] = "none"] /\ UNCHANGED <<lvl, root, toldChild, adopted>>
   /\ UNCHANGED <<parent, children, potential, accept, maxc, session, toldServer, slow, srchvars, spar>>
   /\ Unused /\ Step
 
@@ -192,25 +203,27 @@ TLevel ==
   /\ IsEv("level")
   /\ LET e == EnvLevel(lvl, root, Rec.p, Rec.l) IN lvl' = e[1] /\ root' = e[2]
   /\ UNCHANGED <<conn, parent, children, potential, accept, maxc, session, toldServer, toldChild, slow, srchvars, spar>>
-  /\ Unused /\ Step
+  /\ Unused /\ Kept /\ Step
 
 TRoot ==
   /\ IsEv("root")
   /\ root' = EnvRoot(root, Rec.p, Rec.r)
   /\ UNCHANGED <<conn, lvl, parent, children, potential, accept, maxc, session, toldServer, toldChild, slow, srchvars, spar>>
-  /\ Unused /\ Step
+  /\ Unused /\ Kept /\ Step
 
 TClose ==
   /\ IsEv("close")
   /\ conn' = [conn EXCEPT ![Rec.p] = "closing"]
   /\ UNCHANGED <<lvl, root, parent, children, potential, accept, maxc, session, toldServer, toldChild, slow, srchvars, spar>>
-  /\ Unused /\ Step
+  /\ Unused /\ Kept /\ Step
 
 \* gate releases and server messages whose effect shows in later frames / snapshots only
 TGate ==
-  /\ IsEv("wcdone") \/ IsEv("drained") \/ IsEv("flush") \/ IsEv("reset")
+  /\ \/ IsEv("wcdone") \/ IsEv("drained") \/ IsEv("flush") \/ IsEv("reset")
+     \/ IsEv("srvpause") \/ IsEv("srvresume")      \* the server connection stops / resumes draining
+     \/ IsEv("bystander") \/ IsEv("bygone")        \* an unrelated peer connection comes and goes
   /\ UNCHANGED <<conn, lvl, root, parent, children, potential, accept, maxc, session, toldServer, toldChild, slow, srchvars, spar>>
-  /\ Unused /\ Step
+  /\ Unused /\ Kept /\ Step
 
 \* SOULSEEK.rst "Max children": accept iff avg_speed >= ParentMinSpeed * 1024,
 \* max children = floor(avg_speed / ((ParentSpeedRatio / 10) * 1024)); server defaults 1 and 50
@@ -224,13 +237,13 @@ TUserStats ==
             /\ maxc' = IF acc THEN (Rec.speed * 10) \div (ra * 1024) ELSE 0
        ELSE UNCHANGED <<accept, maxc>>
   /\ UNCHANGED <<conn, lvl, root, parent, children, potential, session, toldServer, toldChild, slow, srchvars, spar>>
-  /\ Unused /\ Step
+  /\ Unused /\ Kept /\ Step
 
 TParam ==
   /\ IsEv("param")
   /\ spar' = IF Rec.k = "minspeed" THEN [spar EXCEPT !.minspeed = Rec.v] ELSE [spar EXCEPT !.ratio = Rec.v]
   /\ UNCHANGED <<conn, lvl, root, parent, children, potential, accept, maxc, session, toldServer, toldChild, slow, srchvars>>
-  /\ Unused /\ Step
+  /\ Unused /\ Kept /\ Step
 
 TSessionLost ==
   /\ IsEv("sesslost")
@@ -238,13 +251,21 @@ TSessionLost ==
   /\ toldServer' = NoServer
   /\ spar' = [minspeed |-> -1, ratio |-> -1]
   /\ UNCHANGED <<conn, lvl, root, parent, children, potential, accept, maxc, toldChild, slow, srchvars>>
-  /\ Unused /\ Step
+  /\ Unused /\ Kept /\ Step
 
 TSessionInit ==
   /\ IsEv("sessinit")
   /\ session' = TRUE
   /\ UNCHANGED <<conn, lvl, root, parent, children, potential, accept, maxc, toldServer, toldChild, slow, srchvars, spar>>
-  /\ Unused /\ Step
+  /\ Unused /\ Kept /\ Step
+
+\* ExcludedSearchPhrases from the server; the record names the files that contain one of the phrases
+TExcluded ==
+  /\ IsEv("xphr")
+  /\ xfiles' = Range(Rec.xfiles)
+  /\ phr' = (Len(Rec.phrases) > 0)
+  /\ UNCHANGED <<treevars, slog, fwd, replies, spar>>
+  /\ Kept /\ Step
 
 ----------------------------------------------------------------------------
 \* frames seen by the counterparts
@@ -256,14 +277,14 @@ TSrvFrame ==
                      [] Rec.kind = "search" -> [toldServer EXCEPT !.search = IF Rec.b THEN "on" ELSE "off"]
                      [] OTHER -> toldServer
   /\ UNCHANGED <<conn, lvl, root, parent, children, potential, accept, maxc, session, toldChild, slow, srchvars, spar>>
-  /\ Unused /\ Step
+  /\ Unused /\ Kept /\ Step
 
 TPeerTold ==
   /\ IsEv("pf") /\ Rec.kind \in {"level", "root"}
   /\ toldChild' = [toldChild EXCEPT ![Rec.p] =
                      IF Rec.kind = "level" THEN FoldLevel(toldChild[Rec.p], Rec.l, Me) ELSE FoldRoot(toldChild[Rec.p], Rec.r)]
   /\ UNCHANGED <<conn, lvl, root, parent, children, potential, accept, maxc, session, toldServer, slow, srchvars, spar>>
-  /\ Unused /\ Step
+  /\ Unused /\ Kept /\ Step
 
 ----------------------------------------------------------------------------
 \* C14
@@ -272,11 +293,11 @@ TPeerTold ==
 TSearch ==
   /\ IsEv("search")
   /\ slog' = Append(slog, [src |-> Rec.frm, carrier |-> Rec.carrier, u |-> Rec.u, q |-> Rec.q,
-                           kids |-> {c \in children : Open(c)}, sess |-> session,
+                           kids |-> {c \in adopted : Open(c)}, sess |-> session, phr |-> phr, xf |-> xfiles,
                            search |-> (Rec.carrier # "legacy" \/ Rec.code = 3),
                            t |-> Rec.t, terms |-> Range(Rec.terms), excl |-> Range(Rec.excl)])
-  /\ UNCHANGED <<treevars, fwd, replies, spar>>
-  /\ Step
+  /\ UNCHANGED <<treevars, fwd, replies, phr, spar, xfiles>>
+  /\ Kept /\ Step
 
 \* a search frame arrives at peer p: it must be one of the searches, with user, ticket and query intact
 FwdMatch(k) == slog[k].search /\ slog[k].u = Rec.u /\ slog[k].t = Rec.t /\ slog[k].q = Rec.q
@@ -296,14 +317,14 @@ TForward ==
        ELSE \* no request with this user, ticket and query was ever delivered
             /\ unexpl' = IF unexpl = <<>> THEN <<"search-frame-at-peer-matches-no-request", l>> ELSE unexpl
             /\ UNCHANGED <<fwd, marks>>
-  /\ UNCHANGED <<treevars, slog, replies, spar>>
+  /\ UNCHANGED <<treevars, slog, replies, phr, spar, xfiles>> /\ Kept
   /\ l' = l + 1 /\ quiet' = FALSE /\ settled' = FALSE /\ UNCHANGED tid /\ Judge
 
 \* a PeerSearchReply arrives at asker `to`: same ticket, our name, exactly the matching files
 ReplyMatch(k) ==
   /\ slog[k].search /\ slog[k].u = Rec.to /\ slog[k].t = Rec.t
   /\ Rec.user = Me
-  /\ LET m == MatchesOf(slog[k].u, slog[k].terms, slog[k].excl) IN
+  /\ LET m == MatchesOf(slog[k].u, slog[k].terms, slog[k].excl, slog[k].xf) IN
        /\ Range(Rec.vis) = m.visible /\ Range(Rec.lock) = m.locked
        /\ Len(Rec.vis) = Cardinality(m.visible) /\ Len(Rec.lock) = Cardinality(m.locked)
 TReply ==
@@ -314,7 +335,7 @@ TReply ==
        ELSE \* wrong ticket / name / file lists, or no such request
             /\ unexpl' = IF unexpl = <<>> THEN <<"reply-matches-no-request", l>> ELSE unexpl
             /\ UNCHANGED replies
-  /\ UNCHANGED <<treevars, slog, fwd, spar>>
+  /\ UNCHANGED <<treevars, slog, fwd, phr, spar, xfiles>> /\ Kept
   /\ l' = l + 1 /\ quiet' = FALSE /\ settled' = FALSE /\ UNCHANGED <<tid, marks>> /\ Judge
 
 ----------------------------------------------------------------------------
@@ -332,6 +353,7 @@ TSnap ==
   /\ lvl' = [p \in P |-> IF Rec.links[p] = "none" THEN NoLvl ELSE lvl[p]]
   /\ root' = [p \in P |-> IF Rec.links[p] = "none" THEN None ELSE root[p]]
   /\ toldChild' = [p \in P |-> IF Rec.links[p] = "none" THEN NoTold ELSE toldChild[p]]
+  /\ adopted' = {p \in adopted \cup Range(Rec.children) : p \in P /\ Rec.links[p] # "none"}
   /\ quiet' = Rec.q
   /\ settled' = TRUE
   /\ UNCHANGED <<potential, accept, maxc, toldServer, slow, srchvars, spar>>
@@ -347,13 +369,13 @@ Done ==
           THEN PrintT(<<"JUDGE", tid, "EveryEventExplained", unexpl[2], unexpl[1]>>)
           ELSE PrintT(<<"JUDGE", tid, bad[1], bad[2], bad[3]>>)
   /\ l' = l + 1
-  /\ UNCHANGED <<vars, tid, quiet, settled, spar, marks, unexpl, bad>>
+  /\ UNCHANGED <<vars, tid, quiet, settled, spar, adopted, xfiles, marks, unexpl, bad>>
 
 Finished == l = Len(T) + 2 /\ UNCHANGED tvars
 
 TNext ==
   \/ TPotential \/ TAttempt \/ TIncoming \/ TLevel \/ TRoot \/ TClose \/ TGate
-  \/ TUserStats \/ TParam \/ TSessionLost \/ TSessionInit
+  \/ TUserStats \/ TParam \/ TSessionLost \/ TSessionInit \/ TExcluded
   \/ TSrvFrame \/ TPeerTold \/ TSearch \/ TForward \/ TReply \/ TSnap
   \/ Done \/ Finished
 
